@@ -1,0 +1,10 @@
+//go:build verif
+
+// Contracts for the deductive verifier in /verif (govc). Only compiled with -tags verif.
+
+package polkit
+
+//@ func CheckAuthorization
+//@   trusted
+//@   assigns nothing
+//@   ensures result0 && result1 == nil ==> polkitAuthorized(pid, uid, actionId)
